@@ -4,6 +4,7 @@ import (
 	"go/ast"
 	"go/token"
 	"go/types"
+	"regexp"
 	"sort"
 	"strings"
 
@@ -148,15 +149,25 @@ func ruleRunCompression(c *core.Ctx, rule string) {
 			o.Fail("the pairwise comparison loop is missing: the decision is not made by looking at every adjacent pair")
 			return
 		}
-		loop := strings.ReplaceAll(core.ExprStr(fs.Init.(*ast.AssignStmt).Rhs[0])+";"+core.ExprStr(fs.Cond), " ", "")
-		o.Shape(loop == "start;j<i-1", "the comparison loop runs over (%s), it must cover every adjacent pair of the run: j := start; j < i-1", loop)
+		loop := ""
+		if ia, isAs := fs.Init.(*ast.AssignStmt); isAs && len(ia.Rhs) == 1 && fs.Cond != nil {
+			loop = strings.ReplaceAll(core.ExprStr(ia.Rhs[0])+";"+core.ExprStr(fs.Cond), " ", "")
+		}
+		// the pairs (j, j+1) for j = start .. i-2, or (j-1, j) for j = start+1 .. i-1
+		upper := loop == "start;j<i-1"
+		lower := loop == "start+1;j<i"
+		if !upper && !lower {
+			o.Unrec("the comparison loop runs over (%s); known forms: j := start; j < i-1 (pairs j, j+1) and j := start+1; j < i (pairs j-1, j)", loop)
+			return
+		}
 		// the guarding comparison
 		okCmp := false
 		for _, bv := range g.BranchVertices() {
 			if bv.Cond.Expr != nil && bv.AST != nil && bv.AST.Pos() >= fs.Body.Pos() && bv.AST.End() <= fs.Body.End() && g.EdgeDominates(setTrue, core.EdgeRef{From: bv, Label: core.EdgeTrue}) {
 				s := strings.ReplaceAll(core.ExprStr(bv.Cond.Expr), " ", "")
 				o.At(fn.Site(bv.AST, "pair comparison "+s))
-				if s == "data[info[j+1].code]!=nextString(data[info[j].code],1)" {
+				if m := regexp.MustCompile(`^data\[(\w+)\[([^\]]+)\]\.code\]!=nextString\(data\[(\w+)\[([^\]]+)\]\.code\],1\)$`).FindStringSubmatch(s); m != nil && m[1] == m[3] &&
+					((upper && m[2] == "j+1" && m[4] == "j") || (lower && m[2] == "j" && m[4] == "j-1")) {
 					okCmp = true
 				} else {
 					o.Fail("adjacent texts are compared by %s; they must be compared in full: data[info[j+1].code] != nextString(data[info[j].code], 1)", s)
